@@ -1,7 +1,7 @@
 """C13 — ill-formed schemas / models rejected; accepted models terminate (DESIGN §4 C13)."""
 import ast
 
-from .common import ctx, returns, calls_in_ctx, site, reach_from_succ, truthy_label, full_text, inline_ast
+from .common import memo_rule, ctx, returns, calls_in_ctx, site, reach_from_succ, truthy_label, full_text, inline_ast
 from .lvs import CK, CP, docs_sanity_bullets, raising_edge, cmp_sides
 from ..flow import callee_attr
 from ..loader import AnalysisError, norm
@@ -11,6 +11,8 @@ SE = CP + '.SemanticError'
 
 
 def run(R):
+    memo_rule(R, 'C13.MEM.1', ('ndn.app_support.light_versec.compiler', 'ndn.app_support.light_versec.parser', 'ndn.app_support.light_versec.checker'), 'the compiler rewrites the parse tree in place (pattern names become numbers, '
+              'constraint targets become lists), so a parse result handed out twice compiles differently - or not at all - the second time')
     P = R.P
     bullets = docs_sanity_bullets(P)
     R.extra['documented_sanity_rules'] = bullets
